@@ -28,6 +28,8 @@ func init() {
 			c.ruleFieldMap()
 			c.ruleRangeCount()
 			c.min("R-RANGECOUNT", 2)
+			c.rulePlanCount()
+			c.min("R-PLAN/count", 1)
 			c.min("R-FIELDMAP", 5)
 		})
 	register("C32", "dominance rules on full-sync validation and import ordering (R-STATEDHASH, R-CHAIN, R-PARENTKNOWN)",
